@@ -387,7 +387,10 @@ class Fn:
         return None
 
     def live_blocks(self, unwind=True):
-        return self.reach([0], unwind=unwind)
+        k = ("live", unwind)
+        if k not in self._succ_cache:
+            self._succ_cache[k] = self.reach([0], unwind=unwind)
+        return self._succ_cache[k]
 
     # ---- dominators (normal + unwind edges by default)
     def dominators(self, unwind=True):
